@@ -71,7 +71,7 @@ def loopKwW {σ} (ps : List (VParamW σ)) (strict : Bool) :
       match p.validate v w with
       | (.ok v', w') => loopKwW ps strict rest (res.set k v') (used ++ [p.name]) w'
       | (.error e, w') => (.error e, w')
-    | Option.none => if strict then (.error .tooMany, w) else loopKwW ps strict rest (res.set k v) used w
+    | Option.none => if kwStrictTest strict k then (.error .tooMany, w) else loopKwW ps strict rest (res.set k v) used w
 
 /-- second loop, the branches `elif k in parameter_dict` / `else` -/
 def loopPosW {σ} (ps : List (VParamW σ)) (strict : Bool) :
@@ -84,7 +84,7 @@ def loopPosW {σ} (ps : List (VParamW σ)) (strict : Bool) :
       | (.ok v', w') => loopPosW ps strict rest (res.set k v') (used ++ [p.name]) (ua ++ [v]) w'
       | (.error e, w') => (.error e, w')
     | Option.none =>
-      if strict && k != selfName then (.error .tooMany, w) else loopPosW ps strict rest (res.set k v) used ua w
+      if posStrictTest strict k then (.error .tooMany, w) else loopPosW ps strict rest (res.set k v) used ua w
 
 /-- second loop, the `zip` branch -/
 def loopZipW {σ} : List (PV × VParamW σ) → Assoc → List Name → σ → Except VExc (Assoc × List Name) × σ
